@@ -288,6 +288,7 @@ def coverage(pid, b, stats, model_ran, rule):
         "evaluations": stats["evaluations"], "distinct_nontrivial": len(stats["nontrivial"]), "rule": rule,
         "correspondence": {"compared_with_model": stats["evaluations"] if model_ran else 0, "disagreements": len(stats["disagreements"])},
         "oracle_failures": len(stats["oracle_failures"]), "known_finding_hits": stats["known_hits"],
+        "corpus_cases_run_first": len([f for f in os.listdir(os.path.join(env.VERIF, "corpus", pid))]) if os.path.isdir(os.path.join(env.VERIF, "corpus", pid)) else 0,
         "distribution": {"requests_with_errors": stats["with_errors"], "data_null": stats["data_null"], "resolver_calls": stats["calls"], "generator": stats["dist"]},
         "samples": stats["samples"] or [{"note": "no non-trivial sample"}]})
 
@@ -300,8 +301,20 @@ def main(pid, rule, assumptions, extra=None):
     b = fw.build(pid, thorough=(tier == "thorough"))
     known = fw.load_known()
     m = Model() if b["driver_ok"] else None
+    async def corpus_cases():
+        """requests on which seeded changes were caught earlier (corpus/<pid>/*.json): they run first, in every tier"""
+        out = []
+        d = os.path.join(env.VERIF, "corpus", pid)
+        for fn in sorted(os.listdir(d)) if os.path.isdir(d) else []:
+            try:
+                p = json.load(open(os.path.join(d, fn)))
+                b2 = await er.build_engine(p["schema_model"], p["env"])
+                out.append(await run_case(m, b2, p["env"], p["query"], p.get("operation_name"), p.get("variables"), p.get("root")))
+            except Exception as e:
+                print(f"corpus case {fn} could not be run: {type(e).__name__}: {e}", file=sys.stderr)
+        return out
     async def go():
-        extra_cases = await extra(m, seed, tier) if extra else []
+        extra_cases = (await corpus_cases()) + (await extra(m, seed, tier) if extra else [])
         return await explore(pid, tier, seed, m, v, known, 100 if tier == "quick" else 900, extra_cases)
     stats = er.run(go())
     if m: m.close()
